@@ -72,6 +72,7 @@ pub fn fontinfo(f: &SynthFont, info: &FontInfo) -> String {
     let mut r = |k: &str, v: &Option<f64>| { if let Some(v) = v { d.push((k.into(), Pl::R(*v))); } };
     r("ascender", &info.ascender); r("descender", &info.descender); r("xHeight", &info.x_height); r("capHeight", &info.cap_height); r("italicAngle", &info.italic_angle);
     for (k, v) in &info.metrics { d.push((k.to_string(), Pl::R(*v))); }
+    if !info.name_records.is_empty() { d.push(("openTypeNameRecords".into(), Pl::A(info.name_records.iter().map(|(id, t)| Pl::D(vec![("nameID".into(), Pl::I(*id as i64)), ("platformID".into(), Pl::I(3)), ("encodingID".into(), Pl::I(1)), ("languageID".into(), Pl::I(0x409)), ("string".into(), Pl::S(t.clone()))])).collect()))); }
     if let Some(r) = &info.os2_unicode_ranges { d.push(("openTypeOS2UnicodeRanges".into(), Pl::A(r.iter().map(|x| Pl::I(*x as i64)).collect()))); }
     if let Some(r) = &info.os2_codepage_ranges { d.push(("openTypeOS2CodePageRanges".into(), Pl::A(r.iter().map(|x| Pl::I(*x as i64)).collect()))); }
     plist(&Pl::D(d))
